@@ -23,11 +23,13 @@ def run(ctx):
     cc.model_check(ctx, "MC_Arc3ds", actions)
     cases = cc.generate(ctx, "MC_Arc3ds", "Gen_Arc3ds.cfg")
     summ, mism, unb = cc.replay(ctx, binary, "arc-replay", cases, "arc")
-    for o in mism:
-        c = cases[o["i"]]
-        ctx.violation({"dir": "spec->impl", "what": o["what"], "layout": c["kind"], "padded": c["padded"],
-                       "files": len(c["v"]), "lens": [len(f[1]) for f in c["v"]], "got": cc.shrink(o["got"], 400)},
-                      {"case": c, "got": cc.shrink(o["got"], 20000)})
+    for profile, ms in (("release", mism), ("checked", cc.replay_checked(ctx, "arc-replay", cases, "arc"))):
+        for o in ms:
+            c = cases[o["i"]]
+            ctx.violation({"dir": "spec->impl", "profile": profile, "what": o["what"], "layout": c["kind"], "padded": c["padded"],
+                           "files": len(c["v"]), "lens": [len(f[1]) for f in c["v"]], "got": cc.shrink(o["got"], 400)},
+                          {"case": c, "got": cc.shrink(o["got"], 20000)})
+    ctx.extra["built_images_not_judged_container_mismatch"] = summ.get("container_mismatch", 0)
     ctx.traces += summ["images"]
     ctx.evaluations += summ["images"]
     ctx.nontrivial += sum(1 for c in cases if c["v"] or c["kind"] != "none")
@@ -40,7 +42,7 @@ def run(ctx):
                                     "data_bytes": len(mid["content"]["data"]), "image_bytes": len(mid["image"]),
                                     "labels": mid["content"]["labels"]}})
     # impl -> spec
-    runs, max_files = ctx.pick((400, 60), (4000, 60))
+    runs, max_files = ctx.pick((400, 60), (10000, 60))
     tpath = ctx.path("arc_trace.ndjson")
     ctx.harness(binary, ["arc-record", tpath, str(runs), str(max_files)])
     events = vlib.read_ndjson(tpath)
